@@ -41,7 +41,7 @@ func Conc(r *core.Rng, p ConcParams) *prog.Program {
 		g.Bkts = []string{"bx", "by"}
 	}
 	mp := MixParams{NoEmptyMember: true, NoZPop: p.NoZPop}
-	kp := KVParams{Deletes: true, NoLimitOnly: true}
+	kp := KVParams{Deletes: true, NoLimitOnly: true, PSearch: true}
 	for t := 0; t < pg.Tasks; t++ {
 		n := r.Range(1, p.MaxSteps)
 		for i := 0; i < n; i++ {
@@ -62,6 +62,10 @@ func Conc(r *core.Rng, p ConcParams) *prog.Program {
 				}
 				if r.Bool(0.08) {
 					st.End = "fnerr"
+				} else if r.Bool(0.05) {
+					// an entry that cannot fit into a segment: Commit fails
+					// and must leave the database lock free
+					st.Ops = append(st.Ops, prog.Op{K: "put", B: g.Bkts[0], Key: g.pick(g.Keys), Val: g.Val(), Big: int(pg.Cfg.SegSize)})
 				}
 				pg.Steps = append(pg.Steps, st)
 			} else {
